@@ -5,6 +5,7 @@ CONSTANTS NK = 7
   KGen <- G6
   MaxN = 5
   OtherKinds <- OthersAll
+  RawModes <- RawAll
   D = 0
 INIT TrInit
 NEXT TrNext
